@@ -306,7 +306,7 @@ pub fn run(ctx: &Ctx) {
         });
         ctx.subspace(&format!("{:?}: all sequences of length {} over an {}-op alphabet on 3 nodes", mode, depth, na), total, true);
     }
-    let n: u32 = ctx.tier.pick(600, 12_000);
+    let n: u32 = ctx.tier.pick(2_000, 20_000);
     ctx.proptest(
         "pt-forward",
         n,
